@@ -147,14 +147,12 @@ func (t *cmdTracer) EndTask(task tracing.Task) {
 
 // sabotageBuffer flips one high-order bit in up to four 32-bit words spread
 // over the buffer (bit 29 or 30 of a little-endian word: an exponent bit of a
-// float32, 2^29 / 2^30 of an integer), or one bit of byte 0 of a short buffer.
+// float32, 2^29 / 2^30 of an integer). Buffers shorter than 8 bytes are left
+// alone.
 func sabotageBuffer(b []byte) int {
-	if len(b) == 0 {
+	if len(b) < 8 {
+		// single scalars are loop-control flags (bfs, kmeans), not results
 		return 0
-	}
-	if len(b) < 4 {
-		b[0] ^= 0x40
-		return 1
 	}
 	words := len(b) / 4
 	n := 0
